@@ -15,29 +15,45 @@ def gen_jobs(ctx):
     th = ctx.thorough
     wide = dict(npaths=4 if th else 3, kinds=["rec", "alr"], names=["n1", "n2"], bodies=["v1", "v2"], labs=["l1", "l2", "l3"],
                 cmts=["none", "c1"], pads=[0, 1, 2], exts=["x0", "x1", "x2"], maxrules=3, maxfork=3, commits=4 if not th else 5,
-                baseadv=1, forkfdis=True, tombrename=True)
+                baseadv=2, merges=1, forkfdis=True, tombrename=True,
+                ops=gh.ALL_OPS + gh.PHASE2_OPS, pairops=["DeleteFile", "RenameFile", "BreakFile"])
+    pair = ["ModifyLabels", "AddFile", "DeleteFile", "RenameFile", "DeleteRule"]
     return [
         # (1) exhaustive: every history of one file whose rules share one name (the F5 neighbourhood)
         ("c03_gen_dup.cfg", gh.cfg("EmitCase", npaths=1, names=["n1"], bodies=["v1"], labs=["l1", "l2", "l3"],
-                                    maxrules=3, maxfork=2, commits=2, ops=DUP_OPS), 300 if not th else 2000, dict(workers=2)),
+                                    maxrules=3, maxfork=2, commits=2, ops=DUP_OPS), 250 if not th else 2000, dict(workers=2)),
         # (2) exhaustive: every file-level history over two paths (add / delete / re-add / rename / rename back / revert)
         ("c03_gen_files.cfg", gh.cfg("EmitCase", npaths=2, names=["n1"], bodies=["v1"], labs=["l1", "l2"],
                                       maxrules=2, maxfork=2, commits=2 if not th else 3, ops=FILE_OPS, tombrename=True),
-         300 if not th else 5000, dict(workers=2 if not th else 4)),
+         250 if not th else 5000, dict(workers=2 if not th else 4)),
         # (3) exhaustive: files entering the linted set from an excluded directory, label removal (l3 -> l1)
         ("c03_gen_excl.cfg", gh.cfg("EmitCase", npaths=4, names=["n1"], bodies=["v1"], labs=["l1", "l3"], maxrules=1,
                                      maxfork=2, commits=2, ops=["RenameFile", "ModifyLabels", "DeleteFile", "RevertLast"]),
-         200 if not th else 3000, dict(workers=2)),
+         150 if not th else 3000, dict(workers=2)),
+        # (5) exhaustive: two file-level changes in one commit (edit + add, rename + edit, delete + add elsewhere ...)
+        ("c03_gen_multi.cfg", gh.cfg("EmitCase", npaths=2 if not th else 3, names=["n1"], bodies=["v1"], labs=["l1", "l2"], maxrules=1,
+                                      maxfork=2, commits=2, ops=pair + ["MultiOp"], pairops=pair),
+         150 if not th else 3000, dict(workers=2 if not th else 4)),
+        # (6) exhaustive: commits that leave a file unparsable / repair it (no HEAD rules there; removals suppressed)
+        ("c03_gen_broken.cfg", gh.cfg("EmitCase", npaths=2, names=["n1", "n2"], bodies=["v1"], labs=["l1"], pads=[0, 1], maxrules=2,
+                                       maxfork=2, commits=2 if not th else 3, forkfdis=True,
+                                       ops=["BreakFile", "DeleteRule", "ModifyLabels", "RenameFile", "DeleteFile", "WhitespaceEdit"]),
+         120 if not th else 2500, dict(workers=2 if not th else 4)),
+        # (7) exhaustive: the base branch inserts rules (top / end of a file) and is merged into the branch
+        ("c03_gen_merge.cfg", gh.cfg("EmitCase", npaths=1 if not th else 2, names=["n1", "n2"], bodies=["v1"], labs=["l1", "l2"], maxrules=2,
+                                      maxfork=2, commits=2, baseadv=1, merges=1,
+                                      ops=["ModifyLabels", "DeleteRule", "AddRule", "RenameFile", "DeleteFile", "BaseAdvance", "MergeBase"]),
+         150 if not th else 3000, dict(workers=2 if not th else 6)),
         # (4) simulation over the wide vocabulary: random prefixes, every successor of every visited history
-        ("c03_sim_wide.cfg", gh.cfg("EmitCase", **wide), 500 if not th else 8000,
-         dict(simulate=10 if not th else 60, depth=12 if not th else 14, workers=1)),
+        ("c03_sim_wide.cfg", gh.cfg("EmitCase", **wide), 400 if not th else 8000,
+         dict(simulate=5 if not th else 50, depth=12 if not th else 14, workers=1)),
     ]
 
 
 def mc_jobs(ctx, mode):
     """MC: the impl-shaped fold + matcher + merge against the documented classification, exhaustively."""
     th = ctx.thorough
-    inv = "Inv_C03" if mode == "twopass" else "Inv_C03_known"
+    inv = "Inv_C03_modMerge"   # = Inv_C03 where no merge happened and MatchMode is "twopass"
     w = 3 if not th else 5
     runs = [
         ("c03_mc_dup.cfg", dict(npaths=1, names=["n1", "n2"], bodies=["v1"], labs=["l1", "l2"], maxrules=3,
@@ -46,6 +62,16 @@ def mc_jobs(ctx, mode):
                                   commits=3 if not th else 5, ops=FILE_OPS)),
         ("c03_mc_excl.cfg", dict(npaths=4, names=["n1"], bodies=["v1"], labs=["l1", "l3"], maxrules=1, maxfork=2,
                                  commits=2 if not th else 4, ops=["RenameFile", "ModifyLabels", "DeleteFile", "RevertLast", "AddFile"])),
+    ]
+    pair = ["ModifyLabels", "AddFile", "DeleteFile", "RenameFile", "DeleteRule"]
+    runs += [
+        ("c03_mc_multi.cfg", dict(npaths=2 if not th else 3, names=["n1"], bodies=["v1"], labs=["l1", "l2"], maxrules=1, maxfork=2,
+                                  commits=2, ops=pair + ["MultiOp"], pairops=pair)),
+        ("c03_mc_broken.cfg", dict(npaths=2, names=["n1", "n2"], bodies=["v1"], labs=["l1"], maxrules=2, maxfork=2,
+                                   commits=2 if not th else 3, ops=["BreakFile", "DeleteRule", "ModifyLabels", "RenameFile", "DeleteFile"])),
+        ("c03_mc_merge.cfg", dict(npaths=1 if not th else 2, names=["n1", "n2"], bodies=["v1"], labs=["l1", "l2"], maxrules=2, maxfork=2,
+                                  commits=2, baseadv=1 if not th else 2, merges=1,
+                                  ops=["ModifyLabels", "DeleteRule", "AddRule", "RenameFile", "DeleteFile", "BaseAdvance", "MergeBase"])),
     ]
     if th:
         runs.append(("c03_mc_fields.cfg", dict(npaths=2, kinds=["rec", "alr"], names=["n1", "n2"], bodies=["v1", "v2"],
@@ -63,7 +89,7 @@ def model_and_cases(ctx, mode):
     jobs = [(lambda j=j: gh.gen(ctx, j[0], j[1], **j[3])) for j in gj]
     jobs += [(lambda j=j: ctx.tlc("GitHistory", j[0], files={j[0]: j[1]}, allow_violation=True, timeout=3000,
                                   workers=j[2], heap="4g")) for j in mj]
-    res = gh.run_parallel(jobs)
+    res = gh.run_parallel(jobs, width=len(jobs))
     parts, stats = [], []
     for j, (cs, r) in zip(gj, res[:len(gj)]):
         d = gh.dedupe(cs)
@@ -111,12 +137,15 @@ def run(ctx, cases_override=None):
         s = v["sig"]
         if "phantom" in v:
             m = v["phantom"]
-            viols.append({"sig": "C03:phantom:obs=%s:greedy=%s:idfirst=%s" % (m["state"], gh.states(v["greedy"]), gh.states(v["idfirst"])),
+            impl = v["idfirst"] if mode0 == "twopass" else v["greedy"]
+            viols.append({"sig": "C03:phantom:obs=%s:greedy=%s:idfirst=%s:impl=%s:merged=%d:misaligned=%d" % (
+                              m["state"], gh.states(v["greedy"]), gh.states(v["idfirst"]), "same" if m["state"] in impl else "diff",
+                              int(v.get("merged", False)), int(v.get("stale", False))),
                           "what": "pint lints %s:%d-%d as %s (ops %s) but no rule is there at HEAD" % (
                               m["path"], m["first"], m["last"], m["state"], ",".join(v["ops"])),
                           "case": cases[cid - 1], "detail": v})
             continue
-        viols.append({"sig": gh.c03_sig(v),
+        viols.append({"sig": gh.c03_sig(v, mode0),
                       "what": "rule %d of %s (ops %s): pint marks it %s, the direct comparison of fork-point and HEAD versions accepts %s" % (
                           s["k"], s["path"], ",".join(v["ops"]), gh.states(s["obs"]), gh.states(s["acc"])),
                       "case": cases[cid - 1], "detail": v})
@@ -149,13 +178,16 @@ def run(ctx, cases_override=None):
         "distinct_nontrivial": nontrivial,
         "rule": "distinct = fork tree + (name-status, content) of every commit; non-trivial = >=2 commits or a file-level add/delete/rename/revert",
         "bound_only_histories": sum(1 for x in tags.get("NDEPS", []) if x[3] == 1),
+        "histories_with_unparsable_head_file": sum(1 for x in tags.get("NDEPS", []) if x[4] == 1),
+        "histories_with_merge_of_base": sum(1 for c in cases if any(o["op"] == "MergeBase" for o in c["log"])),
+        "histories_with_multi_file_commit": sum(1 for c in cases if any(o.get("more") for o in c["log"])),
         "ops_histogram": {k: sum(1 for c in cases for o in c["log"] if o["op"] == k) for k in sorted({o["op"] for c in cases for o in c["log"]})},
         "gen": gstats, "commits_max": max(ncommit), "trace_records": len(trace),
         "git_commits_bound": sum(1 for r in trace if r["ev"] == "Commit"),
     }
     return vlib.conclude(ctx, viols, "model_checking", cov, [
-        "one file-level operation per commit; renames are pure moves (git prints R100, validated per commit against the model)",
-        "HEAD files always parse; no symlinks; histories renaming a file onto a path deleted earlier on the branch carry no verdict (binding only)",
+        "one or two file-level operations per commit; renames are pure moves and an added and a deleted file of one commit are dissimilar by construction (every name-status line git prints is validated against the model)",
+        "a HEAD file that does not parse holds no rules (its yaml/parse problem is bound); merges of the base branch use the model's merged tree as resolution; no symlinks; histories renaming a file onto a path deleted earlier on the branch carry no verdict (binding only)",
         "observed state = severity of the single rule/report marker matching the rule's (path, first line, last line)",
         "reference: fork-point version vs HEAD version of the file identity (followed through renames; delete + re-add continues the file)",
     ], drift=drift)
